@@ -714,7 +714,57 @@ func fineTwoDeletesOnEphemeralTopic(seed uint64) []lib.Case {
 	return []lib.Case{cr.finish("two-deletes-on-ephemeral-topic#"+strconv.FormatUint(seed, 10), seed, nil, nil)}
 }
 
+// An HTTP publish that has passed the topic's exit check when a graceful Exit closes the
+// topic: if it is answered 200 afterwards, the message must survive the restart (the
+// close has to wait for a publish in progress and flush what it wrote).
+func fineExitWhilePublishing(seed uint64) []lib.Case {
+	cr := newFineCase(seed, 10)
+	cr.opCreateTopic(1)
+	cr.opCreateChan(1, 1)
+	// the publisher has its topic and is about to take the topic's read lock ..
+	atLock, goLock := nsqd.VerifArmPark("topic-put:before-rlock", 1)
+	cr.nextTag++
+	tg := cr.nextTag
+	body := cr.body(tg)
+	now := cr.now()
+	pubDone := make(chan int, 1)
+	go func() { pubDone <- cr.post("/pub", url.Values{"topic": {tname(1)}}, body) }()
+	ok := waitReached(atLock, 3*time.Second)
+	// .. Exit has written the metadata and is about to close the topics ..
+	atClose, goClose := nsqd.VerifArmPark("persist:after-rename", 1)
+	// .. the publisher passes the exit check ..
+	reached, release0 := nsqd.VerifArmPark("topic-put:after-exit-check", 1)
+	release := func() {}
+	_ = reached
+	go func() {
+		if waitReached(atClose, 3*time.Second) {
+			goLock()
+			waitReached(reached, 3*time.Second)
+		}
+		goClose()
+	}()
+	release = func() { goLock(); goClose(); release0() }
+	cr.tag(fmt.Sprintf("publish-parked=%v", ok))
+	answered := 0
+	cr.opRestartWithBefore(release, func() {
+		// recorded before ERestart: the publish was answered while the old daemon was shutting down
+		select {
+		case answered = <-pubDone:
+		case <-time.After(5 * time.Second):
+		}
+		if answered == 200 {
+			cr.ev(fmt.Sprintf("EAcked (OPub 1 false [%d]%%N %d 0%%Z %s) ROk", tg, len(body), z(now)))
+			cr.tag("http-pub-acknowledged-during-exit")
+		} else {
+			cr.tag(fmt.Sprintf("http-pub-refused-during-exit=%d", answered))
+		}
+	})
+	cr.nontriv = true
+	return []lib.Case{cr.finish("exit-vs-pub#"+strconv.FormatUint(seed, 10), seed, nil, nil)}
+}
+
 var fineScenarios = map[string]func(uint64) []lib.Case{
+	"exit-vs-pub":                    fineExitWhilePublishing,
 	"two-deletes-on-ephemeral-topic": fineTwoDeletesOnEphemeralTopic,
 	"touch-cap":                      fineTouchCapAfterRedelivery,
 	"pub-vs-topic-delete":            finePubWhileTopicDeleting,
@@ -736,11 +786,11 @@ var fineScenarios = map[string]func(uint64) []lib.Case{
 
 // which forced interleavings each property's profile runs
 var fineByProfile = map[string][]string{
-	"c01": {"pump-vs-sub", "deliver-vs-disconnect", "touch-cap"},
+	"c01": {"pump-vs-sub", "deliver-vs-disconnect", "touch-cap", "exit-vs-pub"},
 	"c08": {"deliver-vs-empty", "sub-vs-topic-delete", "fin-vs-empty", "empty-vs-wakeup", "scan-vs-empty", "req-vs-empty", "pub-vs-topic-delete", "two-deletes-on-ephemeral-topic"},
 	"c03": {"fin-vs-empty", "deliver-vs-empty", "pause-vs-pump"},
 	"c13": {"fin-vs-empty", "deliver-vs-empty", "touch-cap"},
 	"c02": {"deliver-vs-disconnect", "touch-then-scan", "touch-cap"},
 	"c04": {"touch-then-scan", "touch-cap"},
-	"c05": {"exit-vs-deliver", "exit-vs-req", "exit-vs-timeout-scan", "exit-vs-deferred-scan", "deliver-vs-disconnect"},
+	"c05": {"exit-vs-deliver", "exit-vs-req", "exit-vs-timeout-scan", "exit-vs-deferred-scan", "deliver-vs-disconnect", "exit-vs-pub"},
 }
